@@ -452,10 +452,12 @@ func inferSchema(ts *schema.TypeSystem, typ reflect.Type, level int) schema.Type
 		}
 
 		fieldsSchema := make([]schema.StructField, typ.NumField())
+		fieldTypes := make([]schema.Type, typ.NumField())
 		for i := range fieldsSchema {
 			field := typ.Field(i)
 			ftyp := field.Type
 			ftypSchema := inferSchema(ts, ftyp, level+1)
+			fieldTypes[i] = ftypSchema
 			fieldsSchema[i] = schema.SpawnStructField(
 				field.Name, // TODO: allow configuring the name with tags
 				ftypSchema.Name(),
@@ -469,12 +471,12 @@ func inferSchema(ts *schema.TypeSystem, typ reflect.Type, level int) schema.Type
 		if name == "" {
 			panic("TODO: anonymous composite types")
 		}
-		if existing := ts.TypeByName(name); existing != nil {
+		if existing, ok := ts.TypeByName(name).(*schema.TypeStruct); ok && sameInferredFields(existing, typ, fieldTypes) {
 			// the same type reached a second time within this inference
 			return existing
 		}
 		typSchema := schema.SpawnStruct(name, fieldsSchema, nil)
-		ts.Accumulate(typSchema)
+		ts.Accumulate(typSchema) // panics if a different type already took the name
 		return typSchema
 	case reflect.Slice:
 		if typ.Elem().Kind() == reflect.Uint8 {
@@ -491,11 +493,11 @@ func inferSchema(ts *schema.TypeSystem, typ reflect.Type, level int) schema.Type
 		if name == "" {
 			name = "List_" + etypSchema.Name()
 		}
-		if existing := ts.TypeByName(name); existing != nil {
+		if existing, ok := ts.TypeByName(name).(*schema.TypeList); ok && existing.ValueType() == etypSchema && existing.ValueIsNullable() == nullable {
 			return existing
 		}
 		typSchema := schema.SpawnList(name, etypSchema.Name(), nullable)
-		ts.Accumulate(typSchema)
+		ts.Accumulate(typSchema) // panics if a different type already took the name
 		return typSchema
 	case reflect.Interface:
 		// these types must match exactly since we need symmetry of being able to
@@ -509,6 +511,22 @@ func inferSchema(ts *schema.TypeSystem, typ reflect.Type, level int) schema.Type
 		panic("bindnode: unable to infer from interface")
 	}
 	panic(fmt.Sprintf("bindnode: unable to infer from type %s", typ.Kind().String()))
+}
+
+// sameInferredFields reports whether a struct type inferred earlier within the
+// same inference describes Go struct type typ, whose field types were just
+// inferred as fieldTypes: two different Go types may share a short name.
+func sameInferredFields(existing *schema.TypeStruct, typ reflect.Type, fieldTypes []schema.Type) bool {
+	fields := existing.Fields()
+	if len(fields) != len(fieldTypes) {
+		return false
+	}
+	for i, f := range fields {
+		if f.Name() != typ.Field(i).Name || f.Type() != fieldTypes[i] {
+			return false
+		}
+	}
+	return true
 }
 
 // There are currently 27 reflect.Kind iota values,
